@@ -180,12 +180,14 @@ class Gen(object):
         cases = []
         for cid in range(1, rng.choice([1, 2, 2, 3, 4]) + 1):
             kind = 2 if rng.random() < 0.3 else 1
+            if rng.random() < 0.25:
+                kind += 2       # wrappers of wrappers: f_nocancel(f_proxy(f)) / f_proxy(f_proxy(f), timeout)
             state = rng.choice([1, 2, 3, 3, 4, 5])
-            if kind == 2 and rng.random() < 0.3:
+            if kind in (2, 3) and rng.random() < 0.3:
                 state = 6       # f_nocancel only: the owner of f cancels it; the wrapper's cancel() must still say False
             cs = {"id": cid, "kind": kind, "state": state, "D": rng.choice([100, 300]),
                   "val": rng.choice(P.VALUE_IDX), "exc": rng.choice(sorted(P.EXCS)), "callers": [], "cancels": []}
-            if kind == 2:
+            if kind in (2, 3):
                 for _ in range(rng.choice([1, 2, 3])):
                     cs["cancels"].append({"name": self.tname("can"), "S": rng.choice([0, 99, 100, 300, 301, 500]),
                                           "n": rng.choice([1, 1, 2])})
@@ -210,6 +212,46 @@ class Gen(object):
         strat = ["random", rng.randrange(10 ** 9), 0.6] if i % 4 else ["pct", rng.randrange(10 ** 9), 3, 250]
         return {"scen": "proxy", "params": {"cases": cases, "horizon": 3000}, "strat": strat,
                 "gran": "line" if i % 5 == 0 else "sync", "facts": {"part": "state"}}
+
+    # ---- sequences of reads and mutations of ONE result object through one proxy, compared with the same sequence on
+    #      one plain copy (a proxy must not remember anything about the result between two operations)
+    def twin_task(self, i):
+        rng = self.rng
+        mutable = [k for k in P.VALUE_IDX if P.POOL[k][0] in ("list", "dict", "set", "bytearray", "Box")]
+        cases = []
+        for cid in range(1, rng.choice([2, 3, 4]) + 1):
+            boxes = [k for k in mutable if P.POOL[k][0] == "Box"]
+            val = rng.choice(boxes) if rng.random() < 0.5 else rng.choice(mutable)
+            state = rng.choice([1, 1, 3])
+            value = P.make(val)
+            reads = [n for n in dir(value) if not n.startswith("_") and n not in self.reserved]
+            # attributes whose value changes when the object is mutated come first
+            reads.sort(key=lambda n: (callable(getattr(type(value), n, None)) and not isinstance(getattr(type(value), n, None), property), n))
+            ops = []
+            watched = rng.choice(reads[:5]) if reads else None     # read again after every mutation
+            for _o in range(rng.choice([3, 4, 5])):
+                if watched:
+                    op = ["getattr", [["lit", watched]]]
+                    self.note("getattr", val, op[1], state)
+                    ops.append(op)
+                r = rng.random()
+                if P.POOL[val][0] == "Box" and r < 0.6:
+                    op = (["call", [["lit", "put"], rng.choice(P.OPERAND_IDX)]] if rng.random() < 0.5
+                          else ["call", [["lit", "relabel"], rng.choice(P.OPERAND_IDX)]])
+                    self.note("call", val, op[1], state)
+                elif r < 0.85:
+                    op = self.one_op(rng.choice(P.MUTATING), val, state)
+                else:
+                    op = self.one_op(rng.choice(["len", "iter", "contains", "getitem"]), val, state)
+                if op:
+                    ops.append(op)
+            if watched:
+                ops.append(["getattr", [["lit", watched]]])
+            cases.append({"id": cid, "kind": rng.choice([1, 1, 4]), "state": state, "tmo": rng.choice([None, 900]),
+                          "D": 100, "val": val, "twin": True,
+                          "callers": [{"name": self.tname("op"), "S": rng.choice([0, 50]), "ops": ops}], "cancels": []})
+        return {"scen": "proxy", "params": {"cases": cases, "horizon": 2000},
+                "strat": ["random", rng.randrange(10 ** 9), 0.6], "gran": "sync", "facts": {"part": "twin"}}
 
     # ---- the operand sweep: one forwarded operation per task, many (value, operands) cells
     def sweep_task(self, opname, ncases):
@@ -252,6 +294,8 @@ def run(ck):
     tasks = g.table_tasks()
     for i in range(350 if quick else 6000):
         tasks.append(g.state_task(i))
+    for i in range(120 if quick else 2500):
+        tasks.append(g.twin_task(i))
     ops = sorted(P.FORWARDED)
     for i in range(len(ops) * (12 if quick else 150)):
         tasks.append(g.sweep_task(ops[i % len(ops)], 24))
